@@ -276,8 +276,85 @@ def mesh_sequence_case(c):
     return run_compose(c)
 
 
+# ------------------------------------------------------------------ (iii) earlier calls leave nothing behind
+MUTATIONS = ["move_path", "rotate_path", "set_position", "set_orientation", "set_excitation", "set_geometry", "into_collection",
+             "reset_path", "reorient"]
+
+
+def mutate(o, name):
+    """deterministic edit of an object through the public API; returns the object to evaluate"""
+    import magpylib as magpy
+    from scipy.spatial.transform import Rotation as R
+
+    if name == "move_path":
+        o.move([(0.1, 0.0, 0.05), (0.2, 0.1, 0.0)])
+    elif name == "rotate_path":
+        o.rotate_from_angax([20, 40], (1, 1, 0), anchor=(0.5, 0, 0))
+    elif name == "set_position":
+        o.position = [(0.1, 0.2, 0.3), (0.3, -0.1, 0.2), (0.5, 0.0, 0.1)]
+    elif name == "set_orientation":
+        o.orientation = R.from_rotvec([(0.1, 0.2, 0.3), (-0.3, 0.1, 0.4)])
+    elif name == "set_excitation":
+        for a in ("polarization", "current", "moment"):
+            if getattr(o, a, None) is not None:
+                setattr(o, a, np.array(getattr(o, a), float) * -1.5)
+                break
+        else:
+            if hasattr(o, "field_func"):
+                o.field_func = _ff_b if o.field_func is _ff_a else _ff_a
+    elif name == "set_geometry":
+        for a in ("dimension", "diameter", "vertices"):
+            if getattr(o, a, None) is not None and type(o).__name__ != "TriangularMesh":
+                v = np.array(getattr(o, a), float)
+                if a == "dimension" and type(o).__name__ == "CylinderSegment":
+                    v = v * (1.2, 1.2, 1.2, 1, 1)
+                else:
+                    v = v * 1.2
+                setattr(o, a, v if v.ndim else float(v))
+                break
+    elif name == "into_collection":
+        c = magpy.Collection(o)
+        c.move((0.2, 0.1, -0.1)).rotate_from_angax(35, (0, 1, 1))
+    elif name == "reset_path":
+        o.reset_path()
+    elif name == "reorient":
+        if hasattr(o, "reorient_faces"):
+            o.reorient_faces(mode="ignore")
+    return o
+
+
+def run_stale(c):
+    """compute, edit the object, compute again: the second result must be that of an object that was edited without ever
+    having been evaluated (caches filled by the first call must not survive the edit)"""
+    import magpylib as magpy
+
+    obs, _ = mk_obs(c["obs"])
+    field = c["field"]
+    fn = getattr(magpy, "get" + field)
+    a = mk(c["kind"], at=1)
+    try:
+        fn(a, obs)
+        for mu in c["muts"]:
+            mutate(a, mu)
+            fn(a, obs)
+        got = np.asarray(fn(a, obs, squeeze=False))
+    except Exception as e:
+        return f"raised {type(e).__name__}: {e}"[:200]
+    b = mk(c["kind"], at=1)
+    for mu in c["muts"]:
+        mutate(b, mu)
+    exp = np.asarray(fn(b, obs, squeeze=False))
+    if got.shape != exp.shape:
+        return f"shape {got.shape} != {exp.shape} of the never-evaluated twin"
+    sc = max(float(np.max(np.abs(exp))), 1e-300)
+    err = float(np.max(np.abs(got - exp))) / sc
+    return None if err <= RTOL else f"element differs rel={err:.3g} from the never-evaluated twin after {c['muts']}"
+
+
 def work(c):
     try:
+        if c["part"] == "stale":
+            return run_stale(c)
         if c["part"] == "compose":
             return run_compose(c)
         return run_batch(c)
@@ -313,6 +390,16 @@ def enumerate_cases(tier):
     for k in ("cub", "meshC", "pol3"):
         for pl in (1, 3):
             cases.append({"part": "compose", "srcs": [[k, pl], ["circ", 2], [k, pl]], "obs": "p2", "field": "B", "alias_dups": True})
+    # compute - edit - compute histories (one and two edits)
+    for kind in SRC:
+        for obs in ("p2", "srot"):
+            for field in ("B", "H"):
+                for m1 in MUTATIONS:
+                    cases.append({"part": "stale", "kind": kind, "obs": obs, "field": field, "muts": [m1]})
+                    if obs == "p2" and field == "B":
+                        for m2 in MUTATIONS:
+                            if m2 != m1:
+                                cases.append({"part": "stale", "kind": kind, "obs": obs, "field": field, "muts": [m1, m2]})
     # batch sweeps
     for kind in ("cyl", "circ", "seg", "cub", "meshC", "pol3"):
         nrows = len(batch_rows(kind))
@@ -326,6 +413,8 @@ def enumerate_cases(tier):
 
 
 def vkey(c, r):
+    if c["part"] == "stale":
+        return f"C06|stale|{c['kind']}|{c['field']}|{'+'.join(c['muts'])}|{r.split(' ')[0]}"
     if c["part"] == "batch":
         return f"C06|batch|{c['kind']}|{c['field']}|{'n>=10' if c['n'] >= 10 else 'n<10'}|{r.split(' ')[0]}"
     kinds = sorted({k for k, _ in c["srcs"]})
@@ -347,7 +436,7 @@ def run(tier, seed):
             continue
         viols.append({"key": vkey(c, r), "what": f"{c}: {r}", "case": c, "observed": r})
     ncomp = sum(1 for c in cases if c["part"] == "compose")
-    nontriv = sum(1 for c in cases if c["part"] == "batch" or len(c["srcs"]) > 1 or c["srcs"][0][1] > 1)
+    nontriv = sum(1 for c in cases if c["part"] in ("batch", "stale") or len(c["srcs"]) > 1 or c["srcs"][0][1] > 1)
     cov = {
         "evaluations": len(cases), "distinct_nontrivial": nontriv,
         "rule": "compose cases: all ordered source lists (with duplicates) x per-object path length x observer form x "
